@@ -274,49 +274,69 @@ SPEC = {
     "search": search,
     "custom": custom,
     "harness_args": lambda tier, seed: [],
-    "rule": "requests = self-contained shader descriptions (resource globals / cbuffers / static samplers / bindless arrays / "
-            "bind-group attributes, helper call graphs, 0-4 pipelines: compute, vertex+pixel, mesh+pixel, task+mesh; rare "
-            "variants: unsized arrays, static object globals, names reserved in a target, overloaded helpers) rendered to a "
-            "file and compiled by the real compile() x {dx, vk, vk+buffer-address, msl} x {all, one name, no-pipeline}, plus "
-            "a sweep of every reserved name of hlsl/msl names.rs as entry-point and as resource name; the emitted HLSL is "
-            "re-parsed with the real lexer+parser (MSL: text scan) and the property's own oracle compares every metadata "
-            "entry with the annotation / declared type / array length of the declaration of that name, counts entries per "
-            "externally bound declaration, checks inline constant blocks, stage entry functions + thread group sizes, and "
-            "is_used against reachability in the request's own call graph; the Lean model predicts metadata, annotation "
-            "texts, stage records and entry functions; non-trivial = at least two entries and one reported stage",
+    "rule": "requests = self-contained shader descriptions (resource globals / cbuffers incl. empty ones / static samplers with "
+            "property sets / bindless arrays / 2-D arrays / struct globals holding resources / namespaces; bind group written "
+            "as attribute, register space, vk::binding or both; explicit indices; helper call graphs with 14 statement shapes "
+            "around each mention, default arguments and global initialisers that read resources, forward declarations; "
+            "0-4 pipelines: compute, vertex+pixel, mesh+pixel, task+mesh, stage properties in either order, both file "
+            "layouts, numthreads as literals / named constants / arithmetic / two attributes, graphics state property sets; "
+            "rare variants: unsized arrays, static object globals, names reserved in a target, overloaded helpers, name "
+            "clashes, seven front-end error shapes) rendered to a file and compiled by the real compile() x {dx, vk, "
+            "vk+buffer-address, msl} x {all, one name, no-pipeline}, plus a sweep of every reserved name of hlsl/msl names.rs "
+            "as entry-point and as resource name and an enumeration of ~8800 small inputs; the emitted HLSL is re-parsed with "
+            "the real lexer+parser (MSL: text scan) and the property's own oracle compares every metadata entry with the "
+            "annotation / declared type / array length of the declaration of that name, counts entries per externally bound "
+            "declaration, checks inline constant blocks, stage entry functions + the values of their thread group size "
+            "attributes, and is_used against reachability in the request's own use graph; the Lean model predicts metadata, "
+            "annotation texts, stage records, entry functions, emitted names and front-end error classes; non-trivial = at "
+            "least two entries and one reported stage",
     "level_text": "Proof: over the allocator model of C06, the models of both analyse_bindings, of register_binding, of the inline "
                   "constant block, of the Metal used-marking / per-group sort / [[id]] members and of the annotation printers "
                   "are proved, for every declaration list, default group and parameter set: each printed annotation "
                   "(register / vk::binding / vk::offset / id) reads back, character by character, to exactly the bind group, "
                   "slot or inline offset and register class of the declaration's metadata entry (both are projections of one "
                   "api_slot); per bind group the entries are exactly the externally bound declarations, same names, same "
-                  "order (on Metal too: its per-group sort is the identity on the allocator's output, by C06's tiling theorem); annotations and entries line up one to one for "
-                  "modules without static object globals and the printers cannot panic on the allocator's output; descriptor "
-                  "type and count depend only on declared kind and array layer; the usage fixed point equals call-graph "
-                  "reachability, so is_used on Metal holds iff some stage entry point reaches the global (HLSL always reports "
-                  "true); the reported entry point is the emitted function with the reported thread group size on every "
-                  "target, whatever the name generator did (HLSL reports the exporter's generated name); non-extern globals "
-                  "are never bound. Tables, format strings "
-                  "and about 60 syntactic facts are re-extracted from the source on each run; the model is compared with the real "
-                  "compile() output on generated shaders.",
+                  "order (on Metal too: its per-group sort is the identity on the allocator's output, by C06's tiling "
+                  "theorem); annotations and entries line up one to one and the printers cannot panic on the allocator's "
+                  "output; descriptor type and count depend only on declared kind and array layer; non-extern globals are "
+                  "never bound. Used flag (full): the usage fixed point loop terminates (at most n*n modifying passes over n "
+                  "symbols) and equals reachability in the use graph of bodies, default arguments and global initialisers, "
+                  "so is_used on Metal holds iff some stage entry point reaches the global (HLSL always reports true). "
+                  "Stages: an accepted Pipeline block yields one record per stage property in property order, each pointing "
+                  "at the unique function of that name and storing its last numthreads attribute; build_pipeline reports the "
+                  "emitted function with that size on every target and stage kind (= the emitted size whenever the function "
+                  "has one attribute; with two different attributes the negation is proved by witness and recorded as a "
+                  "finding). Names: composed with the C15 model of NameMap::build, two different functions / globals of one "
+                  "scope never share a reported name, no reported name is reserved, and a unique unreserved name is kept "
+                  "(NameKept is now a theorem, not a hypothesis); the two remaining ways two entries can share a name (HLSL "
+                  "cbuffer blocks bypass the map; leaf names across namespaces) are proved as negation witnesses and recorded "
+                  "as findings. Tables, format strings and about 95 syntactic facts are re-extracted from the source on each "
+                  "run; the model is compared with the real compile() output on generated shaders.",
     "trusted_base": [
         "Lean 4.33 kernel; axioms propext / Classical.choice / Quot.sound only (audited by #print axioms)",
         "tools/gens/c05.py (Gen.MetaTables): ObjectType->DescriptorType tables of both exporters, RegisterType letters, "
-        "register/attribute format strings, entry function names, reserved names, and regex facts about the DescriptorBinding "
-        "literals, msl generate_pipeline, the HLSL annotation generators and build_pipeline; Gen.SlotTables, Gen.CompileTables",
-        "hand-written Model/Meta.lean, Model/MetaReach.lean, Model/Slots.lean mirror the Rust functions; tied to the code by the "
-        "correspondence run (model answer == observation of the real compile()) and the regex facts, not by a proof about Rust",
+        "register/attribute format strings, entry function names, reserved names, intrinsic function names, and regex facts about "
+        "the DescriptorBinding literals, msl generate_pipeline, the HLSL annotation generators, build_pipeline, parse_pipeline / "
+        "add_stage, the name lookups of both exporters, simplify_cbuffers and the numthreads printers; Gen.SlotTables, "
+        "Gen.CompileTables, Gen.Reserved",
+        "hand-written Model/Meta.lean, Model/MetaReach.lean, Model/MetaFront.lean, Model/Slots.lean, Model/Names.lean mirror the "
+        "Rust functions; tied to the code by the correspondence run (model answer == observation of the real compile()) and the "
+        "regex facts, not by a proof about Rust",
+        "Driver/C05.lean: how a request becomes the models' inputs (declaration order, registry order of structs / globals / "
+        "functions per target, use graph); checked only by the correspondence run",
         "Spec/Meta.lean: our reader of annotation text, D3D register classes of descriptor types, reachability",
-        "harness oracle tables (which emitted HLSL / MSL type may be reported as which DescriptorType) written independently of "
-        "the compiler's table",
-        "the name generator (NameMap) is not modelled: the emitted name of every function/global is an input of the model "
-        "(requests whose names it changes are answered `unsupported-renamed-*` by the model and judged by the oracle only); C15 owns it",
+        "harness oracle tables (which emitted HLSL / MSL type may be reported as which DescriptorType; static sampler and "
+        "graphics state spellings) written independently of the compiler's tables; evaluator of the emitted numthreads "
+        "expressions (literals, named constants, + - * /, casts)",
     ],
     "assumptions": [
-        "u32 arithmetic is modelled by Nat (C06); array lengths are the evaluated constants the type checker records",
-        "termination of GlobalUsageAnalysis::recurse is assumed in used_sound_complete_partial (fuel not exhausted)",
+        "u32 arithmetic is modelled by Nat (C06); array lengths and numthreads arguments are the evaluated constants the type "
+        "checker records (the model carries values, not expressions)",
+        "sets of the usage analysis are lists read through membership; HashMap iteration order is an arbitrary key list",
         "static sampler parameters, the bindless flag and is_used have no counterpart in the emitted HLSL: they are compared "
         "with the input declaration",
         "no-pipeline mode on Metal emits no argument buffers: entries are compared with the input declarations only",
+        "name uniqueness is per scope of the name map: bindings are reported by leaf name, so two namespaces can still "
+        "contribute one name (recorded finding)",
     ],
 }
